@@ -10,6 +10,14 @@ from collections import Counter
 from typing import Any, Callable
 
 
+def _tag(e: BaseException, name: str) -> None:
+    try:
+        if not hasattr(e, "_vmon_harness") and not hasattr(e, "_vmon_target"):
+            setattr(e, name, True)
+    except Exception:  # noqa: BLE001
+        pass
+
+
 class Hooks:
     def __init__(self) -> None:
         self.counts: Counter = Counter()
@@ -25,10 +33,22 @@ class Hooks:
 
         def wrapper(*args: Any, **kwargs: Any) -> Any:
             counts[lab] += 1
-            token = before(*args, **kwargs) if before is not None else None
-            result = func(*args, **kwargs)
+            try:
+                token = before(*args, **kwargs) if before is not None else None
+            except BaseException as e:
+                _tag(e, "_vmon_harness")
+                raise
+            try:
+                result = func(*args, **kwargs)
+            except BaseException as e:
+                _tag(e, "_vmon_target")  # raised by the code under test (e.g. numba IndexError has no python frame)
+                raise
             if after is not None:
-                after(token, result, *args, **kwargs)
+                try:
+                    after(token, result, *args, **kwargs)
+                except BaseException as e:
+                    _tag(e, "_vmon_harness")
+                    raise
             return result
 
         wrapper.__name__ = getattr(func, "__name__", name)
